@@ -226,16 +226,18 @@ def run_cbmc(job, info, witness=False):
         # check ONLY the witness assertion (everything else is sliced away): find its property id first
         r0 = sh([c for c in cmd if c != '--trace'] + ['--show-properties'], timeout=300, mem_gb=8)
         wid = None
+        wids = []
         try:
             for x in json.loads(r0['out']):
                 for pr in x.get('properties', []) if isinstance(x, dict) else []:
                     if pr.get('description', '').startswith('WITNESS'):
-                        wid = pr['name']
+                        wid = pr['name']; wids.append(wid)
         except Exception:
             pass
         if wid is None:
             return dict(cmd=' '.join(cmd), wall=round(r0['wall'], 2), witness=True, status='error', why='no WITNESS assertion found in harness: ' + (r0['out'][-300:] + r0['err'][-300:]))
-        cmd += ['--property', wid]
+        for w in wids:   # a harness may have several witness points (one per outcome class); reaching any of them shows the harness is not vacuous
+            cmd += ['--property', w]
     gb = job.get('mem_gb', 3)
     to = job.get('timeout', 300)
     if os.environ.get('VERIF_TIMEOUT_CAP'):
